@@ -38,7 +38,7 @@ def main(argv):
         ck.coq_gates(["C15", "C41"], THEOREMS, "EV.C41.Props")
     if bins:
         if ok or os.path.exists(os.path.join(COQ, "theories/C15/Corr.vo")):
-            correspondence(ck, bins["c15"], ck.scale(1500, 20000), loops=True)
+            correspondence(ck, bins["c15"], ck.scale(1000, 20000), loops=True)
         if ck.broken:
             ck.deep = True
         search(ck, bins["c15"], ck.scale(12000, 300000), True, mine)
